@@ -60,7 +60,7 @@ def main():
             continue
         if os.path.isdir(src):
             # demonstrations only: skip build outputs
-            shutil.copytree(src, os.path.join(dst, f), ignore=shutil.ignore_patterns("plugin", "protoc-gen-*", "*.test", "*.bin", "*.exe"))
+            shutil.copytree(src, os.path.join(dst, f), ignore=shutil.ignore_patterns("plugin", "protoc-gen-*", "*.test", "*.bin", "*.exe", "bin"))
         elif os.path.getsize(src) < 2_000_000 and not os.access(src, os.X_OK) or f.endswith(".sh"):
             shutil.copy(src, dst)
     meta = {}
